@@ -146,6 +146,73 @@ def run_heap_cases(ctx, cases):
 HOSTILE = ['b; drop table t1', 'b;drop', '"b"', 'b--', 'b\n', 'b\x00', 'bé', 't1;', "b'", 'b b', '(b)', 'b/*x*/', '`b`', '[b]', 'b,t1', 'B', 'b', 't1', 'nosuch', '_b1', '']
 
 
+# Characters beyond ASCII that some notion of "alphanumeric" / "word character" includes (Python's str-pattern \w, str.isalnum, \d, JS \p{L}):
+# letters (Ll Lu Lo Lm), decimal digits of other scripts (Nd), OTHER numbers that are neither letters nor digits (No: vulgar fractions,
+# superscripts, circled digits; Nl: roman numerals, hangzhou zero), combining marks, connector punctuation, astral digits - and a few that
+# no such notion includes (currency, trademark, emoji).  The property's whitelist is letters, digits and underscore of ASCII; the model
+# (Sqlite.sqlite_accepts) decides each name.  Seeded change C06-13 replaced the character class by \w.
+WORDISH = [0xe9, 0xdf, 0x414, 0x3c9, 0x4e2d, 0xaa, 0xba, 0x2b0, 0x663, 0x6f4, 0x969, 0xff10, 0xff21, 0xbd, 0xbc, 0xb2, 0xb9, 0x2460, 0x2473, 0x2776, 0x2167, 0x2180, 0x3007,
+           0x301, 0x203f, 0xff3f, 0x1d7ce, 0x1d7d9, 0x10140, 0x1f600, 0x20ac, 0x2122, 0xb7, 0x200d]
+
+
+def gen_identifier(r):
+    """a plain ASCII identifier with 1-2 characters inserted after its first character (never a digit first, never an SQL keyword)"""
+    base = r.choice(['b', 't1', 'orders', '_x', 'b'])
+    name = list(base)
+    for _ in range(r.randint(1, 2)):
+        x = r.random()
+        if x < 0.6:
+            ch = chr(r.choice(WORDISH))
+        elif x < 0.85:
+            ch = chr(r.randint(0xa1, 0x2fff))         # any character of the lower BMP (unassigned ones included)
+        else:
+            ch = r.choice('_09ZQ')
+        name.insert(r.randint(1, len(name)), ch)
+    return ''.join(name)
+
+
+def identifier_cases(ctx, n):
+    """odd identifiers in the table_name argument and as the JOIN table of the query text, over a database that HAS a table of that name"""
+    r = ctx.rng
+    out = []
+    for _ in range(n):
+        name = gen_identifier(r)
+        A, B = rect(ctx, 3, 2), rect(ctx, 2, 2)
+        common = {'mode': 'sqlite', 'A': A, 'B': B, 'hdr': ['c1', 'c2'], 'hdrB': ['d1', 'd2'], 'make_tables': [name]}
+        out.append(dict(common, q='select a1, a2', table_name=name, join_name=None, tags=['sqlite', 'input_name', 'existing_odd_table']))
+        if not any(ch.isspace() for ch in name):          # white space cannot be part of an identifier taken from query text
+            out.append(dict(common, q='select a1, b.d2 join %s on a1 == b1' % name, table_name='t1', join_name=name, tags=['sqlite', 'join_name', 'existing_odd_table']))
+    # the earlier hostile names once more, now naming tables that exist
+    for name in HOSTILE:
+        if name in ('b', 't1', 'B', '', 'nosuch') or '\x00' in name:
+            continue
+        A, B = rect(ctx, 3, 2), rect(ctx, 2, 2)
+        common = {'mode': 'sqlite', 'A': A, 'B': B, 'hdr': ['c1', 'c2'], 'hdrB': ['d1', 'd2'], 'make_tables': [name]}
+        out.append(dict(common, q='select a1, a2', table_name=name, join_name=None, tags=['sqlite', 'input_name', 'existing_odd_table']))
+        if not any(ch in name for ch in ' \n\t'):
+            out.append(dict(common, q='select a1, b.d2 join %s on a1 == b1' % name, table_name='t1', join_name=name, tags=['sqlite', 'join_name', 'existing_odd_table']))
+    return out
+
+
+def cli_path_cases(ctx):
+    """both command lines in interactive mode without --output: the result goes to a default path derived from the --input argument AS
+    GIVEN - plain, absolute, and spellings that a path library would normalise (./x, sub/../x, dir//x, dir/./x); the input file's own
+    extension equal to / different from the default extension of the delimiter; delimiter given or detected"""
+    r = ctx.rng
+    out = []
+    for lang in ('py', 'js'):
+        for form in ('plain', 'dot', 'updown', 'dslash', 'dir_dot', 'dot_dslash', 'abs'):
+            for file_name, delim in (('t.csv', ','), ('t.tsv', 'TAB'), ('t.txt', ';'), ('t.csv', None), ('data', ',')):
+                if form == 'abs' and lang == 'py':
+                    continue          # (already among the earlier cases)
+                out.append({'mode': 'cli', 'lang': lang, 'path_form': form, 'q': r.choice(['select a2, a1', 'select * where NR > 1', 'update a1 = a2']), 'A': rect(ctx, 3, 2), 'B': None,
+                            'file_name': file_name, 'delim': delim, 'interactive': True, 'tags': ['cli', lang, 'interactive', form]})
+    for file_name, delim in (('t.csv', ','), ('t.tsv', 'TAB')):
+        out.append({'mode': 'cli', 'lang': 'js', 'path_form': 'abs', 'q': 'select a2, a1', 'A': rect(ctx, 3, 2), 'B': None, 'file_name': file_name, 'delim': delim,
+                    'interactive': False, 'tags': ['cli', 'js', 'batch', 'abs']})
+    return out
+
+
 def list_cases(ctx, n):
     out = []
     for name in ('c01', 'c02', 'c03', 'c04', 'c05'):
@@ -192,7 +259,56 @@ def other_cases(ctx, n):
                         'file_name': file_name, 'delim': delim, 'interactive': interactive, 'tags': ['cli', 'interactive' if interactive else 'batch']})
     for q in QUERIES:
         out.append({'mode': 'sqlite', 'q': q, 'A': rect(ctx, 4, 2), 'B': rect(ctx, 3, 2), 'hdr': ['c1', 'c2'], 'hdrB': ['d1', 'd2'], 'table_name': 't1', 'join_name': 'b' if ' join b ' in q else None, 'tags': ['sqlite', 'benign']})
+    out += identifier_cases(ctx, 40 if ctx.tier == 'quick' else 1500)
+    out += cli_path_cases(ctx)
     return out
+
+
+def join_id_args(cases):
+    return [lib.enc([0, c['q']]) for c in cases if c['join_name'] is not None]
+
+
+def sqlite_model(ctx, sq):
+    """the statements the model sends (entry 600) for the table_name argument and the JOIN identifier AS THE TABLE REGISTRY RECEIVES IT:
+    the identifier the parser model (entry 503: cleanup, string literals replaced by placeholders, parse_join_expression) finds in
+    the query text - `join "b" on` reaches the registry as ___RBQL_STRING_LITERAL0___, an identifier of letters, digits and underscores"""
+    jq = [c for c in sq if c['join_name'] is not None]
+    pargs = join_id_args(jq)
+    pres = lib.run_model(503, pargs)
+    for c, m in zip(jq, pres):
+        jd = m[5][2] if len(m) > 5 and len(m[5]) > 2 else []
+        c['_join_id'] = lib.dec_str(jd[0][1][0]) if (jd and jd[0][0] == 0) else None
+    margs = [lib.enc([c['table_name'], lib.Opt(c['_join_id'] if c['join_name'] is not None else None)]) for c in sq]
+    mres = lib.run_model(600, margs)
+    for c, m in zip(sq, mres):
+        c['_sql'] = [lib.dec_str(s) for s in m]
+    if ctx is not None and pargs:
+        ctx.cross_check_vm(503, pargs, pres, n=5)
+    return margs, mres
+
+
+def other_rel(c, e, g):
+    """dataframe / file / sqlite / command line sources: unchanged; sqlite: the statements prepared and the statements handed over are the model's"""
+    if not isinstance(g, dict) or g.get('sources_ok') is not e['sources_ok']:
+        return False
+    if c['mode'] == 'sqlite':
+        sent = [s for s in g['sql'] if not s.upper().startswith(('BEGIN', 'COMMIT'))]
+        # the trace callback only reports statements that sqlite could prepare: a statement naming a table that
+        # does not exist fails in prepare (and ends the query), so the expectation stops before it
+        # (`handed`: every statement handed to a cursor, prepared or not - it includes that failing statement, and nothing after it)
+        tables = {t.lower() for t in g.get('tables', ['t1', 'b'])}
+        reach, handed = [], []
+        for st in (e['sql'] or []):
+            name = st[len('SELECT * FROM '):-1]
+            handed.append(st)
+            if name.lower() not in tables:
+                break
+            reach.append(st)
+        if sent != reach or g.get('handed') != handed:
+            return False
+        if len(e['sql']) < (2 if c['join_name'] is not None else 1) and (g['error'] is None):
+            return False          # a rejected identifier must surface as an error
+    return True
 
 
 def run(ctx):
@@ -219,45 +335,31 @@ def run(ctx):
     oc = other_cases(ctx, 60 if ctx.tier == 'quick' else 1500)
     # model side for sqlite: the statements the model sends
     sq = [c for c in oc if c['mode'] == 'sqlite']
-    margs = [lib.enc([c['table_name'], lib.Opt(c['join_name'])]) for c in sq]
-    mres = lib.run_model(600, margs)
-    for c, m in zip(sq, mres):
-        c['_sql'] = [lib.dec_str(s) for s in m]
+    margs, mres = sqlite_model(ctx, sq)
     ogot = lib.run_impl_py('c06', oc, shards=8, extra_env={'VERIF_SCRATCH': lib.BUILD})
     oexp = [{'sources_ok': True, 'sql': c.get('_sql')} for c in oc]
 
-    def rel(c, e, g):
-        if not isinstance(g, dict) or g.get('sources_ok') is not e['sources_ok']:
-            return False
-        if c['mode'] == 'sqlite':
-            sent = [s for s in g['sql'] if not s.upper().startswith(('BEGIN', 'COMMIT'))]
-            # the trace callback only reports statements that sqlite could prepare: a statement naming a table that
-            # does not exist fails in prepare (and ends the query), so the expectation stops before it
-            reach = []
-            for st in (e['sql'] or []):
-                name = st[len('SELECT * FROM '):-1]
-                if name.lower() not in ('t1', 'b'):
-                    break
-                reach.append(st)
-            if sent != reach:
-                return False
-            if len(e['sql']) < (2 if c['join_name'] is not None else 1) and (g['error'] is None):
-                return False          # a rejected identifier must surface as an error
-        return True
-    ctx.compare(oc, oexp, ogot, THEOREM, rel=rel,
+    ctx.compare(oc, oexp, ogot, THEOREM, rel=other_rel,
                 describe=lambda c, e, g: '%s source: query %r table_name=%r: expected %s, implementation %s' % (c['mode'], c['q'], c.get('table_name'), json.dumps(e), json.dumps(g)[:300]),
                 corrupt=lambda e: {'sources_ok': False, 'sql': ['x']})
     ctx.cross_check_vm(600, margs, mres, n=20)
     for c, g in zip(oc, ogot):
         ctx.count()
         ctx.stat('%s_%s' % (c['mode'], (g.get('error') or ['ok'])[0] if isinstance(g, dict) else 'x'))
+        if c['mode'] == 'cli' and isinstance(g, dict):
+            # (how many command line runs really wrote a result: stdout of a batch run, one new file beside the input of an interactive run)
+            ctx.stat('cli_%s_%s_%s' % (c.get('lang', 'py'), 'interactive' if c['interactive'] else 'batch', 'result_written' if g.get('rc') == 0 and (g.get('new_files') or not c['interactive']) else 'no_result'))
+        if 'existing_odd_table' in c['tags'] and isinstance(g, dict):
+            ctx.stat('sqlite_odd_identifier_%s' % ('accepted_by_model' if len(c['_sql']) > (1 if c['join_name'] is not None else 0) else 'refused_by_model'))
         ctx.nontriv((c['mode'], c['q'], json.dumps(c['A']), c.get('table_name')))
     ctx.sample_safe(lambda: {'kind': 'sqlite', 'table_name': sq[0]['table_name'], 'model_sql': sq[0]['_sql'], 'implementation': ogot[oc.index(sq[0])]})
     ctx.sample_safe(lambda: {'kind': 'list', 'query': cases[0]['q'], 'A': cases[0]['A'], 'implementation': {k: got[0].get(k) for k in ('sources_ok', 'alias', 'error')}})
     ctx.rule = ('heap obligations regenerated from the source and re-proved (see notes); ' + str(len(HEAP_QUERIES)) + ' query shapes x {user writer that rewrites its argument, CSVWriter, caller rewriting the output table} x both ports over random tables (non-trivial = at least one row emitted); '
                 'every generated query of C01-C05 (succeeding and failing) over Python lists: deep snapshot + id() identity of input/join rows after the run, no output row is an input row object; '
                 'pandas dataframes (equals + dtypes), CSV input/join files (sha256 + mtime), sqlite file (sha256 + trace of every SQL statement = model sql_of_query) over 14 query shapes; '
-                '21 benign/hostile table identifiers in the table_name argument and in JOIN text; non-trivial = distinct case with a non-empty source')
+                '21 benign/hostile table identifiers in the table_name argument and in JOIN text, and identifiers with non-ASCII letters / digits / numbers / marks / connectors inserted (and the hostile ones again) '
+                'over a database that HAS a table of that name (statements prepared = trace, statements handed to a cursor = recording connection, both = model); '
+                'the command lines of both ports, interactive without --output, for 7 spellings of the --input path x 5 file name / delimiter combinations; non-trivial = distinct case with a non-empty source')
     # rbql-js/rbql.js is an anchor of this property too: the JavaScript leg runs language-neutral queries of this shape through rbql-js
     importlib.import_module('props.c19').js_leg(ctx, THEOREM, None, 600 if ctx.tier == 'quick' else 60000)
 
@@ -326,8 +428,12 @@ def replay(ctx, case):
         return
     g = lib.run_impl_py('c06', [case], shards=1, extra_env={'VERIF_SCRATCH': lib.BUILD})[0]
     ctx.count()
+    if case.get('mode') in ('sqlite', 'pandas', 'csv', 'cli'):
+        e = {'sources_ok': True, 'sql': None}
+        if case['mode'] == 'sqlite':
+            sqlite_model(None, [case])
+            e['sql'] = case['_sql']
+        return ctx.compare([case], [e], [g], THEOREM, rel=other_rel,
+                           describe=lambda c, e_, g_: '%s source: query %r table_name=%r: expected %s, implementation %s' % (c['mode'], c['q'], c.get('table_name'), json.dumps(e_), json.dumps(g_)[:300]))
     ok = isinstance(g, dict) and g.get('sources_ok') is True and g.get('alias', False) is False
-    if case.get('mode') == 'sqlite' and ok:
-        m = lib.run_model(600, [lib.enc([case['table_name'], lib.Opt(case['join_name'])])], shards=1)[0]
-        ok = [s for s in g['sql'] if not s.upper().startswith(('BEGIN', 'COMMIT'))] == [lib.dec_str(s) for s in m]
     ctx.compare([case], [{'sources_ok': True}], [g], THEOREM, rel=lambda c, e, g_: ok)
